@@ -16,7 +16,10 @@ if [ "$PATCH" != "/dev/null" ]; then
   (cd $M/repo && patch -p1 --no-backup-if-mismatch -s < "$PATCH") || { echo "$(basename $PATCH) PATCH-FAILED"; exit 2; }
 fi
 FEATS=$(echo "$@" | tr 'A-Z' 'a-z' | tr ' ' ',')
-(cd $M/harness && CARGO_NET_OFFLINE=true cargo build --release --no-default-features --features "$FEATS" --target-dir $M/target >$M/build.log 2>&1) || { echo "$(basename $PATCH) BUILD-FAILED"; tail -20 $M/build.log; exit 2; }
+FEATARGS="--no-default-features --features $FEATS"
+# C10 borrows the scenarios of every other check: build it with the default feature set
+case " $(echo "$@" | tr a-z A-Z) " in *" C10 "*) FEATARGS="" ;; esac
+(cd $M/harness && CARGO_NET_OFFLINE=true cargo build --release $FEATARGS --target-dir $M/target >$M/build.log 2>&1) || { echo "$(basename $PATCH) BUILD-FAILED"; tail -20 $M/build.log; exit 2; }
 for id in "$@"; do
   ID=$(echo $id | tr a-z A-Z)
   VERIF_OUT=$M/out VERIF_SEED=${VERIF_SEED:-1} $M/target/release/vcheck $ID quick >$M/out/$ID.log 2>&1
